@@ -224,6 +224,12 @@ def copy_deepcopy(ex, a, k):
             return ex.alloc(HList([copy_deepcopy(ex, [x], {}) for x in h.items]))
         if isinstance(h, HDict):
             return ex.alloc(HDict({kk: copy_deepcopy(ex, [x], {}) for kk, x in h.items.items()}))
+        if isinstance(h, HSymDict):
+            # a fresh dictionary with the same keys whose values are COPIES: deepcopy_of is uninterpreted - for a value that is an object the copy is
+            # another object (shared references into the original are not preserved), and nothing is assumed about it beyond being a function of the
+            # original.  Over-approximate: clauses about the identity of the values cannot be proved of a deep copy, only refuted (and replayed).
+            dc = z3.Function('deepcopy_of', Val, Val)
+            return ex.alloc(HSymDict(h.dom, z3.Map(dc, h.map), h.vkind))
     if isinstance(v, VTuple):
         return VTuple([copy_deepcopy(ex, [x], {}) for x in v.items])
     if isinstance(v, (VSeq, VInt, VBool, VStr, VSym, VReal, VBytes)) or v is NONE:
